@@ -254,8 +254,16 @@ def exitStep (env : Env) (st : GState) (m : Msg) : GState :=
     let r2 := listIsSuppressed env true m st4.nomsg
     if r2.1 then { st4 with nomsg := r2.2 } else { st4 with nomsg := r2.2, exitCode := 1 }
 
-/-- one call of `CppCheckLogger::reportErr` (plist output is outside the model) -/
-def reportErr (env : Env) (cfg : GCfg) (st : GState) (f : Finding) : GState :=
+/-- SWITCH: is /verif/proposed/C23-duptext.diff part of lib/cppcheck.cpp?  `true` since /repo commit 9e24c55: suppressed
+    findings have a duplicate filter of their own.  (`false` = the code before: `mErrorList` also received the renderings
+    of suppressed findings; kept only for `reported_duptext_counterexample`.) -/
+def dupFixApplied : Bool := true
+
+/-- one call of `CppCheckLogger::reportErr` (plist output is outside the model).
+    `dfix = true` is the code after proposed/C23-duptext.diff: suppressed findings use a duplicate filter of their own,
+    which only decides what is written to the analyzer information (outside the model), so they neither read nor
+    write `errorList`. -/
+def reportErrG (dfix : Bool) (env : Env) (cfg : GCfg) (st : GState) (f : Finding) : GState :=
   if f.internal then { st with out := st.out ++ [{ f := f }] }
   else if !f.libReports then st
   else
@@ -264,6 +272,7 @@ def reportErr (env : Env) (cfg : GCfg) (st : GState) (f : Finding) : GState :=
     let sup := r.1
     let st2 := safetyStep env cfg { st with nomsg := r.2 } f m sup
     if f.text.isEmpty then st2
+    else if dfix && sup then st2
     else if !cfg.emitDuplicates && st2.errorList.contains f.text then st2
     else
       let st3 : GState := if cfg.emitDuplicates then st2 else { st2 with errorList := f.text :: st2.errorList }
@@ -273,8 +282,13 @@ def reportErr (env : Env) (cfg : GCfg) (st : GState) (f : Finding) : GState :=
         { st5 with out := st5.out ++ [{ f := f, remark := remarkFor cfg f }] }
 
 /-- the gate over a whole run -/
+def gateG (dfix : Bool) (env : Env) (cfg : GCfg) (nomsg nofail : List Suppr) (fs : List Finding) : GState :=
+  fs.foldl (reportErrG dfix env cfg) { nomsg := nomsg, nofail := nofail }
+
+/-- the current code -/
+def reportErr (env : Env) (cfg : GCfg) (st : GState) (f : Finding) : GState := reportErrG dupFixApplied env cfg st f
 def gate (env : Env) (cfg : GCfg) (nomsg nofail : List Suppr) (fs : List Finding) : GState :=
-  fs.foldl (reportErr env cfg) { nomsg := nomsg, nofail := nofail }
+  gateG dupFixApplied env cfg nomsg nofail fs
 
 /-! ### specification: the documented matching rules -/
 
